@@ -8,6 +8,8 @@ def localGuardsBeforeStop : List String := []
 def localStopsPreviousServer : Bool := true
 def remoteGuardsBeforeStop : List String := ["cfg==nil"]
 def remoteStopsPreviousServer : Bool := true
+/-- replaceLocalAdminServer assigns `localAdminServer` only after the listener is bound and its error returned -/
+def localServerAssignedAfterBind : Bool := true
 
 /-- the route patterns registered by the admin.api modules of the tree: every `AdminRoute{Pattern: …}` composite
     literal outside admin.go, tests and verif hooks, as (file, pattern); an identifier is resolved to the string
